@@ -9,15 +9,17 @@ Client: _fetch_cmd with ignore_exc returns {} - with the connection closed and d
 after the exchange started (and never raises then); get / gets / gat / gats turn that {} into exactly the miss value.
 HashClient get / gat / gats / gets: with ignore_exc, a failing inner call, a server inside its back-off window and "no
 server left" all return exactly that same miss value, and nothing escapes (_safely_run_func by its C13 contract).
+HashClient get_many / gets_many (contracts/hashmany.py): with ignore_exc only an input error can escape; the result is the merge
+of one answer per batch, a failing or backed-off server contributing {} - its keys are simply absent, as for a miss.
 """
 from . import poolmodel as pm
 from . import clientmodel as cm
 from . import hashmodel as hm
+from . import hashmany as hmany
 
 TRUSTED = ["inner Client contract (raising exit => socket closed)", "pool contracts (C09)"]
 ASSUMPTIONS = ["inner clients are built with ignore_exc=False (proved in C16: _create_client)"]
-NOT_COVERED = ["get_many / gets_many of HashClient (group-by over maps of sequences not mechanised; Client and PooledClient are covered)",
-               "input errors (MemcacheIllegalInputError before any I/O) are not server or network failures"]
+NOT_COVERED = [               "input errors (MemcacheIllegalInputError before any I/O) are not server or network failures"]
 BUDGET = {"quick": 30, "thorough": 120}
 FILTER_BY_PROPERTY = True
 DEPENDS = ["C13"]      # _safely_run_func's contract: nothing escapes with ignore_exc
@@ -30,3 +32,4 @@ def build(E, tier):
                          iter_kinds=("re-iterable", "one-shot") if tier == "thorough" else ("one-shot",))
     cm.verify_public_fetch(E)
     hm.verify_hash_single(E)
+    hmany.verify_hash_many(E, methods=("get_many", "gets_many"), prop="C12")
